@@ -11,6 +11,10 @@ package main
 //              idown                                        (udp) the server socket is closed while the client socket is pooled
 //     dial : behaviour of the connections dialled during the measured exchange, in order (missing = ok):
 //              ok | refuse | blackhole | efin | erst | silent | half | garbage | fin | rst
+//     tr=pfake: a PipelineTransport (TCP framing) built directly over an injected dialer whose connections are
+//            net.Pipe ends served by an echo goroutine; pool=werr,..,werr[,ok]: the ONE pooled connection fails its next
+//            n Writes (a TCP pipelined connection is not closed by a failed Write, so the pool hands it out again):
+//            pins the pipelined retry constant on the real loop. att is the number of Writes, also on success.
 //   result: res=<REPLY|ERR|HANG> dials=<n|-> att=<n|-> when=<early|dl> late=<0|1>
 //     dials: sockets created by the upstream's dialer during the measured exchange (Opt.Control hook)
 //     att  : on ERR, the number of joined errors (= loop iterations of ExchangeContext); '-' when not observable
@@ -527,6 +531,9 @@ func runFaults(id string, parts []string) string {
 
 func faultsCase(f map[string]string) string {
 	tr := f["tr"]
+	if tr == "pfake" {
+		return pfakeCase(f)
+	}
 	pool := c14Tokens(f["pool"])
 	dial := c14Tokens(f["dial"])
 	dl := time.Duration(hx.MustAtoi(f["dl"])) * time.Millisecond
@@ -683,9 +690,9 @@ func faultsCase(f map[string]string) string {
 	}
 	rc := make(chan result, 1)
 	go func() {
+		t0 := time.Now() // before the context exists: a return caused by the deadline always has el >= dl
 		ctx, cancel := context.WithTimeout(context.Background(), dl)
 		defer cancel()
-		t0 := time.Now()
 		r, err := u.ExchangeContext(ctx, hx.BuildQuery(0xC014, name, 1, 1, true))
 		el := time.Since(t0)
 		ok := err == nil && r != nil && r.Header.ID == 0xC014 && len(r.Answers) == 1
@@ -770,5 +777,118 @@ func (d *c14DoH) closeIdle() {
 	defer s.mu.Unlock()
 	for _, cc := range s.conns {
 		cc.raw.Close()
+	}
+}
+
+// ---------------------------------------------------------------- tr=pfake
+
+type c14FailConn struct {
+	net.Conn
+	fail   *atomic.Int32
+	writes *atomic.Int32
+}
+
+func (c *c14FailConn) Write(b []byte) (int, error) {
+	c.writes.Add(1)
+	if c.fail.Load() > 0 {
+		c.fail.Add(-1)
+		return 0, fmt.Errorf("injected write error")
+	}
+	return c.Conn.Write(b)
+}
+
+func pfakeCase(f map[string]string) string {
+	pool := c14Tokens(f["pool"])
+	dial := c14Tokens(f["dial"])
+	dl := time.Duration(hx.MustAtoi(f["dl"])) * time.Millisecond
+	var dials, fail, writes atomic.Int32
+	done := make(chan struct{})
+	defer close(done)
+	dialFn := func(ctx context.Context) (net.Conn, error) {
+		n := int(dials.Add(1))
+		if len(pool) == 0 || n > 1 { // a dial of the measured exchange
+			if len(dial) > 0 && dial[0] == "refuse" {
+				return nil, fmt.Errorf("injected dial error")
+			}
+		}
+		cl, sv := net.Pipe()
+		go func() {
+			defer sv.Close()
+			go func() { <-done; sv.Close() }()
+			for {
+				var h [2]byte
+				if _, err := io.ReadFull(sv, h[:]); err != nil {
+					return
+				}
+				q := make([]byte, binary.BigEndian.Uint16(h[:]))
+				if _, err := io.ReadFull(sv, q); err != nil {
+					return
+				}
+				sv.Write(c14Frame(hx.BuildReply(q, false, 0, [4]byte{1, 4, 1, 4}, 60)))
+			}
+		}()
+		return &c14FailConn{Conn: cl, fail: &fail, writes: &writes}, nil
+	}
+	t := transport.NewPipelineTransport(transport.PipelineOpts{DialContext: dialFn, IsTCP: true})
+	defer t.Close()
+	name := []byte("\x03c14\x04test")
+	if len(pool) > 0 {
+		ctx, cancel := context.WithTimeout(context.Background(), 3*time.Second)
+		_, err := t.ExchangeContext(ctx, hx.BuildQuery(0x1000, name, 1, 1, true))
+		cancel()
+		if err != nil {
+			return "HARNESS-ERROR warm-up " + err.Error()
+		}
+		ok := false
+		for t0 := time.Now(); time.Since(t0) < 2*time.Second; time.Sleep(time.Millisecond) {
+			if _, busy, idle := t.VerifPoolStatus(); busy == 0 && idle == 1 {
+				ok = true
+				break
+			}
+		}
+		if !ok {
+			return "HARNESS-ERROR pool did not reach the scripted occupancy"
+		}
+		n := 0
+		for _, p := range pool {
+			if p == "werr" {
+				n++
+			}
+		}
+		fail.Store(int32(n))
+	}
+	d0, w0 := dials.Load(), writes.Load()
+	type result struct {
+		ok bool
+		el time.Duration
+	}
+	rc := make(chan result, 1)
+	go func() {
+		t0 := time.Now() // before the context exists: a return caused by the deadline always has el >= dl
+		ctx, cancel := context.WithTimeout(context.Background(), dl)
+		defer cancel()
+		r, err := t.ExchangeContext(ctx, hx.BuildQuery(0xC014, name, 1, 1, true))
+		rc <- result{ok: err == nil && r != nil && r.Header.ID == 0xC014, el: time.Since(t0)}
+	}()
+	select {
+	case res := <-rc:
+		cls := "ERR"
+		if res.ok {
+			cls = "REPLY"
+		}
+		when, late := "early", 0
+		if res.el >= dl {
+			when = "dl"
+		}
+		if res.el > dl+c14Slack {
+			late = 1
+		}
+		att := int(writes.Load() - w0)
+		if cls == "ERR" && len(dial) > 0 && dial[0] == "refuse" && dials.Load() > d0 {
+			att++ // the iteration whose dial failed made no Write
+		}
+		return fmt.Sprintf("res=%s dials=%d att=%d when=%s late=%d", cls, dials.Load()-d0, att, when, late)
+	case <-time.After(dl + 5*time.Second):
+		return fmt.Sprintf("res=HANG dials=%d att=%d when=dl late=1", dials.Load()-d0, writes.Load()-w0)
 	}
 }
